@@ -207,11 +207,18 @@ func (s *source) Seek(off int64, whence int) (int64, error) {
 	if s.f.Kind == "seek-fail" && s.seeks == s.f.K {
 		return 0, errors.New("injected seek failure")
 	}
-	if whence != io.SeekStart || off != 0 {
-		return 0, errors.New("unexpected seek")
+	base := 0
+	switch whence {
+	case io.SeekCurrent:
+		base = s.off
+	case io.SeekEnd:
+		base = len(s.data)
 	}
-	s.off = 0
-	return 0, nil
+	if int(off)+base < 0 {
+		return 0, errors.New("seek before the start")
+	}
+	s.off = int(off) + base
+	return int64(s.off), nil
 }
 
 func (s *source) Read(p []byte) (int, error) {
@@ -303,7 +310,10 @@ func runPut(dir string, tmpl *cache.Cache, s scenario, f fault) (res runResult) 
 		vos.Reset()
 	}()
 	c := cache.WithDirVerif(tmpl, dir)
-	_, _, res.PutErr = c.Put(ids[s.Target], &source{data: s.newContent(), f: f})
+	// the reader has been used before: it is handed over positioned in the middle
+	// of its data (Put documents that it reads the file from the start, twice)
+	nc := s.newContent()
+	_, _, res.PutErr = c.Put(ids[s.Target], &source{data: nc, off: len(nc) / 2, f: f})
 	return res
 }
 
@@ -513,7 +523,10 @@ func main() {
 		if err := json.Unmarshal(raw, &c); err != nil {
 			kit.Harness("bad case: %v", err)
 		}
-		v, _ := w.one(c.Scenario, c.Fault)
+		v, res := w.one(c.Scenario, c.Fault)
+		if v == "" && c.Fault.Kind == "none" && res.PutErr != nil {
+			v = fmt.Sprintf("Put fails without any fault: %v", res.PutErr)
+		}
 		if v == "" {
 			return nil
 		}
